@@ -151,6 +151,22 @@ def check(rep, tier):
             except Exception as e:
                 rep.violation("reshape-crash %s" % type(e).__name__, "%s object, history %s raises %r" % (arr, hist, e),
                               dict(arrangement=arr, history=hist, error=repr(e)))
+    # ---- process history: the declared arrangement of an object is the one of ITS configuration (defaults + its own file), whatever
+    #      other objects were built before it in the same process ----
+    decl_default = impl.expected_config(None)["snowfall_parameters"]["vial_arrangement"]
+    for prev, this_cfg, this_arr in (("hexagonal", None, decl_default), ("hexagonal", {"vial": {"geometry": {"height": 0.012}}}, decl_default),
+                                     ("square", None, decl_default), ("hexagonal", {"snowfall_parameters": {"vial_arrangement": "square"}}, "square")):
+        try:
+            with impl.quiet():
+                S0 = sf.Snowflake(k=dict(K), N_vials=(3, 3, 1), configPath=impl.arrangement_cfg(prev)); _ = S0.H_int
+                S1 = sf.Snowflake(k=dict(K), N_vials=(3, 4, 2), configPath=impl.cfg_path(this_cfg)); H = S1.H_int.toarray() / (K["int"] * S1.const["A"])
+            G = geometric(this_arr, 3, 4, 2)
+            rep.case("process history %s then %s" % (prev, this_cfg), nontrivial=True); rep.count("process-history")
+            if (np.rint(H) != G - np.diag(G.sum(axis=1))).any():
+                rep.violation("arrangement-leaks-between-objects", "after an object with a %s configuration was built, an object whose configuration (%r over the defaults) declares '%s' "
+                              "gets the couplings of another arrangement" % (prev, this_cfg, this_arr), dict(history=[prev, this_cfg], declared=this_arr))
+        except Exception as e:
+            rep.violation("reshape-crash %s" % type(e).__name__, "process history %s then %r raises %r" % (prev, this_cfg, e), dict(history=[prev, this_cfg], error=repr(e)))
     # correspondence with the Coq model
     CH = 60
     chunks = [cases[i:i + CH] for i in range(0, len(cases), CH)]
